@@ -52,6 +52,25 @@ class FunctionResult:
         self.called = []
 
 
+def symbol_names(formulas, prefix):
+    """names of the function symbols with the given prefix that occur in the formulas"""
+    seen, out, stack = set(), set(), list(formulas)
+    while stack:
+        t = stack.pop()
+        i = t.get_id()
+        if i in seen:
+            continue
+        seen.add(i)
+        if z3.is_quantifier(t):
+            stack.append(t.body())
+        elif z3.is_app(t):
+            n = t.decl().name()
+            if n.startswith(prefix):
+                out.add(n)
+            stack.extend(t.children())
+    return out
+
+
 class Engine(ExprMixin, CallMixin, SpecMixin, StmtMixin):
     def __init__(self, registry, repo=REPO):
         self.reg = registry
@@ -205,8 +224,11 @@ class Engine(ExprMixin, CallMixin, SpecMixin, StmtMixin):
         self.facts = []
         self._heap0 = {}
         self._memfacts = set()
+        self.sum_lemmas = []
         for _n, _b, _t in self.reg.z3axioms:
-            self.facts.extend(_b(self))
+            scope = self.reg.z3axiom_scope.get(_n)
+            if scope is None or c.qualname in scope:
+                self.facts.extend(_b(self))
         self.cur_contract = c
         self.cur_qual = c.qualname
         parts = c.qualname.split(".")
@@ -278,7 +300,12 @@ class Engine(ExprMixin, CallMixin, SpecMixin, StmtMixin):
                 self.exit_obligations(c, fn, o)
             res.obligations = self.obls
             for ob in res.obligations:
-                ob.hyps = list(self.facts) + ob.hyps
+                extra = []
+                if self.sum_lemmas:
+                    # a sum lemma is attached only where both sums occur (keeps unrelated obligations small)
+                    names = symbol_names([ob.goal] + ob.hyps, "psum_")
+                    extra = [f for a, b, f in self.sum_lemmas if a in names and b in names]
+                ob.hyps = list(self.facts) + extra + ob.hyps
             res.dropped = sorted(self.dropped)
             res.notes = sorted(self.notes)
             res.called = sorted(self.called)
